@@ -65,6 +65,19 @@ def accounted : List Site := [
   -- gradual calculators: lifetime extension of borrows into a Box / Vec owned by the same value
   ⟨"src/osu/difficulty/gradual.rs", "unsafe", "unsafe\x20{ mem::transmute(diff_objects) }"⟩,
   ⟨"src/taiko/difficulty/gradual.rs", "unsafe", "unsafe\x20{ mem::transmute(iter) }"⟩,
+  -- `OsuObjects` (fix: OsuGradualDifficulty owns its objects through a raw pointer): the allocation of the
+  -- osu! objects is owned through `NonNull<[OsuObject]>` instead of `Box<[OsuObject]>` so that moving the
+  -- calculator does not retag it Unique under the references of `diff_objects`.
+  -- Send: bounded on `Box<[OsuObject]>: Send` — sole owner of the allocation, exactly like the Box it replaces
+  ⟨"src/osu/difficulty/gradual.rs", "unsafe", "unsafe\x20impl Send for OsuObjects where Box<[OsuObject]>: Send {}"⟩,
+  -- Sync: bounded on `Box<[OsuObject]>: Sync` — `&OsuObjects` only exposes `is_empty` (reads the slice length)
+  ⟨"src/osu/difficulty/gradual.rs", "unsafe", "unsafe\x20impl Sync for OsuObjects where Box<[OsuObject]>: Sync {}"⟩,
+  -- `iter_mut(&mut self)`: pointer from `Box::leak`, freed only in `Drop`; `&mut self` gives unique access; used on
+  -- the local in `new` before any reference into the allocation is stored (Gen/Lifetime `osuOwnerUses`)
+  ⟨"src/osu/difficulty/gradual.rs", "unsafe", "let objects = unsafe\x20{ self.objects.as_mut() };"⟩,
+  -- `Drop`: rebuilds the leaked Box exactly once and drops it; the borrower `diff_objects` is declared, hence
+  -- dropped, before `osu_objects` (obligation `premise_osu_layout` / `premise_osu_storage_freed` in Props/C11.lean)
+  ⟨"src/osu/difficulty/gradual.rs", "unsafe", "drop(unsafe\x20{ Box::from_raw(self.objects.as_ptr()) });"⟩,
   -- dependencies: parsing (rosu-map) and mod tables (rosu-mods); exercised by every history run
   ⟨"Cargo.toml", "dep", "[dependencies] rosu-map"⟩,
   ⟨"Cargo.toml", "dep", "[dependencies] rosu-mods"⟩
